@@ -8,6 +8,7 @@ use crate::refclass::{layout, Layout};
 use rspirv::dr::{self, Operand};
 use rspirv::grammar::{OperandKind as K, OperandQuantifier as Q};
 use rspirv::lift::LiftContext;
+use rspirv::sr::{self, storage::{Storage, Token}};
 use serde_json::Value;
 use std::collections::{BTreeMap, HashMap};
 use std::sync::OnceLock;
@@ -23,11 +24,106 @@ pub enum Atom {
     Ident(String),
 }
 
-/// splits "Storage { data: [a, b, c] }" into its top-level entries
-fn entries(storage_debug: &str) -> Option<Vec<String>> {
-    let s = storage_debug.trim();
-    let inner = s.strip_prefix("Storage { data: [")?.strip_suffix("] }")?;
-    Some(split_top(inner))
+/// How this tree renders a token under `Debug`: `pre` + decimal index + `suf`, learned from tokens
+/// forged through a scratch storage (the property fixes what a token *refers to*, not how it prints).
+/// `ambiguous`: the rendering cannot be told from list / number syntax (no letter in it), so a
+/// canonicalised `Token(k)` may just as well be the literal k: both readings are accepted then.
+#[derive(Clone, Debug)]
+pub struct TokFmt {
+    pre: String,
+    suf: String,
+    pub ambiguous: bool,
+}
+
+fn forge<T>(n: usize, mk: impl Fn() -> T) -> Vec<Token<T>> {
+    let mut s = Storage::new();
+    (0..n).map(|_| s.append(mk())).collect()
+}
+
+fn learn_token_format() -> Option<TokFmt> {
+    let toks = forge(14, || sr::Type::Void);
+    let a = format!("{:?}", toks[7]);
+    let b = format!("{:?}", toks[13]);
+    for (i, _) in a.match_indices('7') {
+        let (pre, suf) = (&a[..i], &a[i + 1..]);
+        if format!("{}13{}", pre, suf) == b {
+            let ambiguous = !pre.chars().any(|c| c.is_alphabetic());
+            return Some(TokFmt { pre: pre.to_string(), suf: suf.to_string(), ambiguous });
+        }
+    }
+    None
+}
+
+pub fn tok_fmt() -> Option<&'static TokFmt> {
+    static F: OnceLock<Option<TokFmt>> = OnceLock::new();
+    F.get_or_init(learn_token_format).as_ref()
+}
+
+/// rewrites every token rendering of this tree into the canonical `Token(k)` (outside string literals)
+fn canon(s: &str, f: &TokFmt) -> String {
+    if (f.pre == "Token(" && f.suf == ")") || f.pre.is_empty() {
+        return s.to_string();
+    }
+    let mut out = String::with_capacity(s.len() + 16);
+    let (mut i, mut in_str, mut esc) = (0usize, false, false);
+    while i < s.len() {
+        let c = s[i..].chars().next().unwrap();
+        let cl = c.len_utf8();
+        if in_str {
+            out.push(c);
+            if esc {
+                esc = false;
+            } else if c == '\\' {
+                esc = true;
+            } else if c == '"' {
+                in_str = false;
+            }
+            i += cl;
+            continue;
+        }
+        if c == '"' {
+            in_str = true;
+            out.push(c);
+            i += cl;
+            continue;
+        }
+        if s[i..].starts_with(f.pre.as_str()) {
+            let d0 = i + f.pre.len();
+            let d1 = d0 + s[d0..].bytes().take_while(|x| x.is_ascii_digit()).count();
+            if d1 > d0 && s[d1..].starts_with(f.suf.as_str()) {
+                out.push_str("Token(");
+                out.push_str(&s[d0..d1]);
+                out.push(')');
+                i = d1 + f.suf.len();
+                continue;
+            }
+        }
+        out.push(c);
+        i += cl;
+    }
+    out
+}
+
+/// The entries of a storage in insertion order, through its public interface only: element k is
+/// what the token of index k yields (forged tokens; the first index that panics is the length).
+/// `Err(n)`: the storage holds n != want entries (n capped at want + 8).
+fn entries<T: std::fmt::Debug>(st: &Storage<T>, want: usize, mk: impl Fn() -> T, f: &TokFmt) -> Result<Vec<String>, usize> {
+    let toks = forge(want + 9, mk);
+    let mut out = vec![];
+    for (k, t) in toks.iter().enumerate() {
+        match catch(|| format!("{:?}", &st[*t])) {
+            Ok(e) => {
+                if k >= want {
+                    continue;
+                }
+                out.push(canon(&e, f));
+            }
+            Err(_) => {
+                return if k == want { Ok(out) } else { Err(k) };
+            }
+        }
+    }
+    Err(want + 9)
 }
 
 fn split_top(inner: &str) -> Vec<String> {
@@ -178,6 +274,7 @@ fn dr_atoms(o: &Operand) -> (bool, Vec<Atom>) {
 struct Index {
     types: HashMap<u32, u32>,
     consts: HashMap<u32, u32>,
+    ambiguous: bool,
 }
 
 fn match_atoms(sr: &[Atom], ops: &[Operand], ix: &Index) -> Result<(), String> {
@@ -197,6 +294,13 @@ fn match_atoms(sr: &[Atom], ops: &[Operand], ix: &Index) -> Result<(), String> {
                 (Atom::Tok(t), Atom::Num(n), true) => {
                     let id: u32 = n.parse().unwrap_or(u32::MAX);
                     ix.types.get(&id) == Some(t) || ix.consts.get(&id) == Some(t)
+                }
+                // a token rendering that looks like list / number syntax: `Token(k)` may be the literal k
+                (Atom::Tok(t), Atom::Num(n), false) if ix.ambiguous => n.parse::<u32>().ok() == Some(*t),
+                (Atom::Num(n), Atom::Num(m), true) if ix.ambiguous => {
+                    let id: u32 = m.parse().unwrap_or(u32::MAX);
+                    let t: Option<u32> = n.parse().ok();
+                    t.is_some() && (ix.types.get(&id).copied() == t || ix.consts.get(&id).copied() == t)
                 }
                 _ => false,
             };
@@ -272,7 +376,7 @@ impl Base {
 }
 
 fn inst(op: spirv::Op, rt: Option<u32>, rid: Option<u32>, ops: Vec<Operand>) -> dr::Instruction {
-    dr::Instruction::new(op, rt, rid, ops)
+    crate::rs::mk_inst(op, rt, rid, ops)
 }
 
 fn base_module(cs: &mut Cs, rich: bool) -> Base {
@@ -653,6 +757,9 @@ fn check_lift(built: &Built, st: &mut Stats) -> R {
         Ok(x) => x,
         Err(e) => return Err(wrap(Fail::new("lift-fails", format!("{:?}", e), format!("lifting a module of the supported subset fails: {:?}", e)))),
     };
+    let Some(tf) = tok_fmt() else {
+        return Err(wrap(Fail::new("harness", "token-rendering", "cannot learn how a token is rendered under Debug (forged tokens 7 and 13 do not differ in their index only)".to_string())));
+    };
     let h = m.header.as_ref().unwrap();
     if sr.version != h.version {
         return Err(wrap(Fail::new("version-word", "version", format!("lifted version {:#x}, header version word {:#x}", sr.version, h.version))));
@@ -666,7 +773,7 @@ fn check_lift(built: &Built, st: &mut Stats) -> R {
         return Err(wrap(Fail::new("capabilities", "order-or-content", format!("lifted capabilities {:?}, module has {:?}", caps, want_caps))));
     }
     let mm = m.memory_model.as_ref().unwrap();
-    let (_, mma) = atoms(&format!("{:?}", sr.memory_model));
+    let (_, mma) = atoms(&canon(&format!("{:?}", sr.memory_model), tf));
     let mut want_mm = vec![];
     for o in &mm.operands {
         want_mm.extend(dr_atoms(o).1);
@@ -675,7 +782,7 @@ fn check_lift(built: &Built, st: &mut Stats) -> R {
         return Err(wrap(Fail::new("memory-model", "content", format!("lifted memory model {:?}, module has {:?}", sr.memory_model, want_mm))));
     }
     // types / constants / ops, one entry per declaration, in order
-    let mut ix = Index { types: HashMap::new(), consts: HashMap::new() };
+    let mut ix = Index { types: HashMap::new(), consts: HashMap::new(), ambiguous: tf.ambiguous };
     let type_decls: Vec<&dr::Instruction> = m.types_global_values.iter().filter(|i| crate::refclass::is_type(i.class.opname) == crate::refclass::Tri::Yes).collect();
     let const_decls: Vec<&dr::Instruction> = m.types_global_values.iter().filter(|i| crate::refclass::is_constant(i.class.opname) == crate::refclass::Tri::Yes).collect();
     for (k, t) in type_decls.iter().enumerate() {
@@ -684,10 +791,10 @@ fn check_lift(built: &Built, st: &mut Stats) -> R {
     for (k, c) in const_decls.iter().enumerate() {
         ix.consts.insert(c.result_id.unwrap(), k as u32);
     }
-    let te = entries(&format!("{:?}", sr.types)).ok_or_else(|| wrap(Fail::new("harness", "debug-syntax", "cannot read Debug of types".to_string())))?;
-    if te.len() != type_decls.len() {
-        return Err(wrap(Fail::new("one-type-per-declaration", "count", format!("{} lifted types for {} type declarations", te.len(), type_decls.len()))));
-    }
+    let te = match entries(&sr.types, type_decls.len(), || sr::Type::Void, tf) {
+        Ok(e) => e,
+        Err(n) => return Err(wrap(Fail::new("one-type-per-declaration", "count", format!("{}{} lifted types for {} type declarations", n, if n > type_decls.len() + 8 { "+" } else { "" }, type_decls.len())))),
+    };
     for (e, d) in te.iter().zip(&type_decls) {
         let (head, a) = atoms(e);
         let want_head = d.class.opname.trim_start_matches("Type");
@@ -698,10 +805,10 @@ fn check_lift(built: &Built, st: &mut Stats) -> R {
             return Err(wrap(Fail::new("type-entry", format!("{}:operands", d.class.opname), format!("declaration {} lifted as {}: {}", show_inst(d), e, why))));
         }
     }
-    let ce = entries(&format!("{:?}", sr.constants)).ok_or_else(|| wrap(Fail::new("harness", "debug-syntax", "cannot read Debug of constants".to_string())))?;
-    if ce.len() != const_decls.len() {
-        return Err(wrap(Fail::new("one-constant-per-declaration", "count", format!("{} lifted constants for {} constant declarations", ce.len(), const_decls.len()))));
-    }
+    let ce = match entries(&sr.constants, const_decls.len(), || sr::Constant::Null, tf) {
+        Ok(e) => e,
+        Err(n) => return Err(wrap(Fail::new("one-constant-per-declaration", "count", format!("{}{} lifted constants for {} constant declarations", n, if n > const_decls.len() + 8 { "+" } else { "" }, const_decls.len())))),
+    };
     for (e, d) in ce.iter().zip(&const_decls) {
         let (head, a) = atoms(e);
         // expected rendering per opcode
@@ -732,10 +839,10 @@ fn check_lift(built: &Built, st: &mut Stats) -> R {
             return Err(wrap(Fail::new("constant-entry", d.class.opname.to_string(), format!("declaration {} lifted as {}", show_inst(d), e))));
         }
     }
-    let oe = entries(&format!("{:?}", sr.ops)).ok_or_else(|| wrap(Fail::new("harness", "debug-syntax", "cannot read Debug of ops".to_string())))?;
-    if oe.len() != built.lifted.len() {
-        return Err(wrap(Fail::new("one-op-per-instruction", if oe.len() < built.lifted.len() { "fewer" } else { "more" }, format!("{} lifted operations for {} result-producing non-phi block instructions", oe.len(), built.lifted.len()))));
-    }
+    let oe = match entries(&sr.ops, built.lifted.len(), || sr::ops::Op::Nop, tf) {
+        Ok(e) => e,
+        Err(n) => return Err(wrap(Fail::new("one-op-per-instruction", if n < built.lifted.len() { "fewer" } else { "more" }, format!("{}{} lifted operations for {} result-producing non-phi block instructions", n, if n > built.lifted.len() + 8 { "+" } else { "" }, built.lifted.len())))),
+    };
     for (e, d) in oe.iter().zip(&built.lifted) {
         let (head, a) = atoms(e);
         if head != d.class.opname {
@@ -763,10 +870,11 @@ fn check_lift(built: &Built, st: &mut Stats) -> R {
         if Some(sf.result.index()) != want_res {
             return Err(wrap(Fail::new("function", "result-type", format!("function {}: result token {:?}, declared type index {:?}", k, sf.result, want_res))));
         }
-        let be = entries(&format!("{:?}", sf.blocks)).ok_or_else(|| wrap(Fail::new("harness", "debug-syntax", "cannot read Debug of blocks".to_string())))?;
-        if be.len() != df.blocks.len() {
-            return Err(wrap(Fail::new("function", "block-count", format!("function {}: {} lifted blocks for {}", k, be.len(), df.blocks.len()))));
-        }
+        let mk_block = || sr::module::Block { arguments: vec![], ops: vec![], terminator: sr::ops::Terminator::TerminateRayKHR };
+        let be = match entries(&sf.blocks, df.blocks.len(), mk_block, tf) {
+            Ok(e) => e,
+            Err(n) => return Err(wrap(Fail::new("function", "block-count", format!("function {}: {}{} lifted blocks for {}", k, n, if n > df.blocks.len() + 8 { "+" } else { "" }, df.blocks.len())))),
+        };
         for (bi, (e, db)) in be.iter().zip(&df.blocks).enumerate() {
             // Block { arguments: [...], ops: [...], terminator: ... }
             let args_part = e.split("arguments: [").nth(1).and_then(|x| x.split(']').next()).unwrap_or("");
